@@ -1,5 +1,7 @@
 import XPathV.Model.Chain
 import XPathV.Model.Engine
+import XPathV.Generated.BuilderFacts
+import XPathV.Generated.ExtraFacts
 /-!
 # Model of `xpath.go`: Compile / CompileWithNS / MustCompile, Expr.Select, Expr.Evaluate
 
@@ -16,10 +18,33 @@ inductive CompileErr
   | nilQuery            -- "undeclared variable in XPath expression"
   deriving DecidableEq, Repr, Inhabited
 
+/-- does `hay` contain `pat`? (used to read off builder conditions from their regenerated source text) -/
+def isPrefixL : List Char → List Char → Bool
+  | [], _ => true
+  | _ :: _, [] => false
+  | a :: as, b :: bs => a == b && isPrefixL as bs
+
+def hasInfixL (pat : List Char) : List Char → Bool
+  | [] => pat.isEmpty
+  | h :: t => isPrefixL pat (h :: t) || hasInfixL pat t
+
+def hasSubstr (hay pat : String) : Bool := hasInfixL pat.toList hay.toList
+
+/-- F4: the `//name` shortcut requires the input step to be `descendant-or-self::node()` iff the
+regenerated condition contains the three node-test conjuncts -/
+def shortcutNeedsNodeTestFromSource : Bool :=
+  hasSubstr Generated.shortcutCondSrc "input.typeTest==allNode&&input.LocalName==\"\"&&input.Prefix==\"\""
+
+/-- F4: SmartDesc travels through a filter node unless `processFilter` masks it out of the flags it
+passes to its input -/
+def smartDescThroughFilterFromSource : Bool :=
+  !hasSubstr Generated.filterInputFlagsSrc "&^flagsEnum.SmartDesc"
+
 structure CompileCfg where
   regexOk : RegexOk := fun _ => true
-  shortcutNeedsNodeTest : Bool := true
-  smartDescThroughFilter : Bool := false
+  /-- both are **read off the current source** (regenerated facts), not assumed -/
+  shortcutNeedsNodeTest : Bool := shortcutNeedsNodeTestFromSource
+  smartDescThroughFilter : Bool := smartDescThroughFilterFromSource
 
 def compile (cc : CompileCfg) (ns : Option (List (String × String))) (text : List Char) : Except CompileErr Plan :=
   if text.isEmpty then .error .empty else
